@@ -716,10 +716,46 @@ def fancy_index(I, obj, idx):
     raise Unsupported('fancy indexing')
 
 
+def _same_mask(I, m1, m2):
+    """two boolean masks with the same contents (e.g. `val < lo` written twice in one statement)"""
+    if m1 is m2:
+        return True
+    c1, c2 = I.st.heap[m1], I.st.heap[m2]
+    if m1.kind == 'slist' and m2.kind == 'slist':
+        if not z3.simplify(c1['len']).eq(z3.simplify(c2['len'])):
+            return False
+        if z3.simplify(c1['arr']).eq(z3.simplify(c2['arr'])):
+            return True
+        k = z3.Int(I.st.fresh_name('k!mask'))       # same function written twice (bound-variable names differ): ask z3
+        sv = z3.Solver()
+        sv.set('timeout', 1000)
+        sv.add(z3.Select(c1['arr'], k) != z3.Select(c2['arr'], k))
+        return sv.check() == z3.unsat
+    if m1.kind == 'clist' and m2.kind == 'clist' and len(c1) == len(c2):
+        def tm(x):
+            return z3.simplify(zbool(x)) if isinstance(x, SV) else z3.BoolVal(bool(x))
+        return all(tm(a).eq(tm(b)) for a, b in zip(c1, c2))
+    return False
+
+
+def masked_binop(I, op, a, b):
+    """a[m] op b[m]  ==  (a op b)[m]   for + - * and the same mask (scalars broadcast)"""
+    if not isinstance(op, (ast.Add, ast.Sub, ast.Mult)):
+        raise Unsupported('operator on a boolean-mask selection')
+    masks = [x.mask for x in (a, b) if isinstance(x, MaskedSel)]
+    if len(masks) == 2 and not _same_mask(I, masks[0], masks[1]):
+        raise Unsupported('arithmetic on selections by different masks')
+    sa = a.src if isinstance(a, MaskedSel) else a
+    sb = b.src if isinstance(b, MaskedSel) else b
+    if (not isinstance(a, MaskedSel) and numkind(a) is None) or (not isinstance(b, MaskedSel) and numkind(b) is None):
+        raise Unsupported('arithmetic of a boolean-mask selection with a non-scalar')
+    return MaskedSel(binop(I, op, sa, sb), masks[0])
+
+
 def mask_assign(I, obj, mask, v):
     """obj[mask] = v   with mask a boolean ndarray; v a scalar or  src[mask]  for the same mask"""
     if isinstance(v, MaskedSel):
-        if v.mask is not mask:
+        if not _same_mask(I, v.mask, mask):
             raise Unsupported('masked assignment from a different mask')
         src = v.src
     elif numkind(v) is not None:
@@ -874,6 +910,8 @@ def pow_axioms(I, base, n):
 
 
 def binop(I, op, a, b):
+    if isinstance(a, MaskedSel) or isinstance(b, MaskedSel):
+        return masked_binop(I, op, a, b)
     # sequences
     if is_list(a) or is_list(b) or isinstance(a, tuple) or isinstance(b, tuple):
         nd = (is_list(a) and a.nd) or (is_list(b) and b.nd)
